@@ -83,10 +83,10 @@ func (v view) conv(p string) string {
 	}
 	return strings.ReplaceAll(p, "/", `\`)
 }
-func (v view) Lstat(p string) (fsFileInfo, error)    { return v.VFS.Lstat(v.conv(p)) }
-func (v view) Stat(p string) (fsFileInfo, error)     { return v.VFS.Stat(v.conv(p)) }
+func (v view) Lstat(p string) (fsFileInfo, error)     { return v.VFS.Lstat(v.conv(p)) }
+func (v view) Stat(p string) (fsFileInfo, error)      { return v.VFS.Stat(v.conv(p)) }
 func (v view) ReadDir(p string) ([]fsDirEntry, error) { return v.VFS.ReadDir(v.conv(p)) }
-func (v view) ReadFile(p string) ([]byte, error)     { return v.VFS.ReadFile(v.conv(p)) }
+func (v view) ReadFile(p string) ([]byte, error)      { return v.VFS.ReadFile(v.conv(p)) }
 func (v view) Readlink(p string) (string, error) {
 	s, err := v.VFS.Readlink(v.conv(p))
 	if v.win {
@@ -388,17 +388,30 @@ func runSeq(c *vt.Ctx, kind string, ops []fsx.Op) *vt.Deviation {
 	defer r.CloseAll()
 	snap := snapshot(v, kind, true)
 	cwd := "/"
+	opened := map[int]string{}
 	for _, o := range ops {
 		out, after, dev := step(c, v, r, kind, o, snap, cwd)
 		if dev != nil {
 			return dev
 		}
 		snap = after
-		if o.K == "Chdir" && out.Err == "ok" {
-			cwd = fsx.Physical(snap, cwd, o.P, true)
-		}
+		cwd = trackCwd(snap, cwd, opened, o, out)
 	}
 	return nil
+}
+
+// trackCwd follows the working directory: Chdir to a path, or File.Chdir on a handle whose
+// (physical) path was noted when it was opened.
+func trackCwd(snap fsx.Snap, cwd string, opened map[int]string, o fsx.Op, out fsx.Out) string {
+	switch {
+	case o.K == "Open" && out.Err == "ok":
+		opened[o.H] = fsx.Physical(snap, cwd, o.P, true)
+	case o.K == "Chdir" && out.Err == "ok":
+		return fsx.Physical(snap, cwd, o.P, true)
+	case o.K == "FChdir" && out.Err == "ok" && opened[o.H] != "":
+		return opened[o.H]
+	}
+	return cwd
 }
 
 func TestCheck(t *testing.T) {
@@ -470,6 +483,7 @@ func TestCheck(t *testing.T) {
 			defer r.CloseAll()
 			snap := snapshot(v, kind, true)
 			cwd := "/"
+			opened := map[int]string{}
 			var done []fsx.Op
 			nAlias := 0
 			for n := rapid.IntRange(1, c.Pick(30, 60)).Draw(t, "n"); n > 0; n-- {
@@ -486,9 +500,7 @@ func TestCheck(t *testing.T) {
 						c.Label("aliasing-call:" + o.K)
 					}
 					snap = after
-					if o.K == "Chdir" && out.Err == "ok" {
-						cwd = fsx.Physical(snap, cwd, o.P, true)
-					}
+					cwd = trackCwd(snap, cwd, opened, o, out)
 				}
 			}
 			if nAlias >= 1 {
